@@ -35,8 +35,36 @@ def pacman_dbs():
     for st in itertools.product(("no", "dep", "exp"), repeat=3):
         inst = [p for p, s in zip(PKGS, st) if s != "no"]
         expl = [p for p, s in zip(PKGS, st) if s == "exp"]
-        for up in (False, True):
-            yield dict(installed=inst, explicit=expl, upgradable=up)
+        # installed level / local sync database / mirrors: up to date, upgrade known locally,
+        # upgrade visible only after a refresh (stale database), both
+        for sv, dv, uv in ((1, 1, 1), (1, 2, 2), (1, 1, 2), (1, 2, 3)):
+            yield dict(installed=inst, explicit=expl, sysver=sv, dbver=dv, upstream=uv)
+
+
+def dbnorm(d):
+    return dict(installed=sorted(d["installed"]), explicit=sorted(d["explicit"]), sysver=d["sysver"], dbver=d["dbver"], upstream=d["upstream"])
+
+
+def pkgstate(d):
+    """the package state of the machine; the local sync database (dbver) is a cache"""
+    return dict(installed=sorted(d["installed"]), explicit=sorted(d["explicit"]), sysver=d["sysver"])
+
+
+def psample(run, items, n, group=1):
+    """stratified: every case whose task asks for update_cache AND upgrade is kept (the refresh/query order matters only there)"""
+    groups = [items[i:i + group] for i in range(0, len(items), group)]
+    if len(items) <= n:
+        return items
+    keep = [g for g in groups if g[0][1][0]["update_cache"] and g[0][1][0]["upgrade"]]
+    rest = [g for g in groups if not (g[0][1][0]["update_cache"] and g[0][1][0]["upgrade"])]
+    k = max(0, n // group - len(keep))
+    out = keep + run.rng.sample(rest, min(len(rest), k))
+    return [x for g in out for x in g]
+
+
+def known_check_skips_refresh(t, db):
+    """K24 (Coq: StateSpec.known_check_skips_refresh)"""
+    return t["update_cache"] and t["upgrade"] and ((db["sysver"] < db["dbver"]) != (db["sysver"] < db["upstream"]))
 
 
 def pacman_params(tier):
@@ -52,7 +80,7 @@ def pacman_params(tier):
 
 
 def pacman_sx(db, tasks_checks):
-    return sx(["pacman", ["db", [hx(x) for x in db["installed"]], [hx(x) for x in db["explicit"]], db["upgradable"]],
+    return sx(["pacman", ["db", [hx(x) for x in db["installed"]], [hx(x) for x in db["explicit"]], db["sysver"], db["dbver"], db["upstream"]],
                ["tasks"] + [[["names"] + [hx(n) for n in t["names"]], t["state"], t["update_cache"], t["upgrade"], bool(c)]
                             for t, c in tasks_checks]])
 
@@ -80,7 +108,7 @@ def run_pacman_cases(cases):
                            removed=sorted(C.unhx(x).decode() for x in e[2]), upgraded=e[3] == "t",
                            log=[canon_inv(i) for i in e[4]]))
         mdb = dict(installed=sorted(C.unhx(x).decode() for x in m[1][1]), explicit=sorted(C.unhx(x).decode() for x in m[1][2]),
-                   upgradable=m[1][3] == "t")
+                   sysver=int(m[1][3]), dbver=int(m[1][4]), upstream=int(m[1][5]))
         it = []
         prevlog = 0
         dbs = [db]
@@ -95,7 +123,7 @@ def run_pacman_cases(cases):
                                upgraded=ex.get("upgraded"), log=[canon_log(l) for l in mylog]))
                 try:
                     d = json.loads(r["read"]["db.json"])
-                    dbs.append(dict(installed=sorted(d["installed"]), explicit=sorted(d["explicit"]), upgradable=d["upgradable"]))
+                    dbs.append(dbnorm(d))
                 except Exception:
                     dbs.append(None)
         res.append(dict(db=db, tasks=tasks, check=chk, model_tasks=mt, model_db=mdb, impl_tasks=it, impl_dbs=dbs, line=line,
@@ -133,7 +161,7 @@ def pacman_compare(r):
             return "task %d: invocations model=%r impl=%r" % (i, m["log"], im["log"])
     fin = r["impl_dbs"][-1]
     md = r["model_db"]
-    if fin is None or sorted(md["installed"]) != fin["installed"] or sorted(md["explicit"]) != fin["explicit"] or md["upgradable"] != fin["upgradable"]:
+    if fin is None or dbnorm(md) != fin:
         return "final database model=%r impl=%r" % (md, fin)
     return None
 
@@ -202,7 +230,7 @@ def c03(run, replay=None):
     pps = list(pacman_params(tier))
     allp = [(db, [p], chk) for db in dbs for p in pps for chk in ("global", "task")]
     if tier == "quick":
-        allp = sample(run, allp, 1200)
+        allp = psample(run, allp, 1200)
     pres = run_pacman_cases(allp)
     for r in pres:
         d = pacman_compare(r)
@@ -214,7 +242,7 @@ def c03(run, replay=None):
         it = r["impl_tasks"][0]
         bad = [l for l in it["log"] if l[0] not in READ_ONLY]
         dbafter = r["impl_dbs"][-1]
-        before = dict(installed=sorted(r["db"]["installed"]), explicit=sorted(r["db"]["explicit"]), upgradable=r["db"]["upgradable"])
+        before = dbnorm(r["db"])
         if bad or dbafter != before:
             run.violation("check-mode pacman task sent a modifying request or changed the database: %r" % (bad,),
                           dict(desc, observed=dict(log=it["log"], db_after=dbafter)))
@@ -283,7 +311,7 @@ def c04(run, replay=None):
     # pacman
     allp = [(db, [p], "none") for db in pacman_dbs() for p in pacman_params(tier)]
     if tier == "quick":
-        allp = sample(run, allp, 1200)
+        allp = psample(run, allp, 1200)
     pres = run_pacman_cases(allp)
     for r in pres:
         d = pacman_compare(r)
@@ -297,19 +325,24 @@ def c04(run, replay=None):
             continue
         nontrivial.add(json.dumps(desc, sort_keys=True))
         after = r["impl_dbs"][-1]
-        before = dict(installed=sorted(r["db"]["installed"]), explicit=sorted(r["db"]["explicit"]), upgradable=r["db"]["upgradable"])
+        before = dbnorm(r["db"])
         kd = known_sync_dep(r["tasks"][0], r["db"])
+        t0 = r["tasks"][0]
+        if after is not None and ((t0["upgrade"] and after["sysver"] < after["dbver"]) or (t0["update_cache"] and after["dbver"] != before["upstream"])):
+            run.violation("declared-state: pacman task with upgrade/update_cache succeeded but %s" %
+                          ("upgrades are still outstanding" if t0["upgrade"] and after["sysver"] < after["dbver"] else "the sync database was not refreshed"),
+                          dict(desc, observed=dict(db_after=after, status=it["status"])))
         if after is None or not pdeclared(r["tasks"][0], after):
             if kd:
                 run.known("K19-sync-dependency", "")
             else:
                 run.violation("declared-state: pacman task succeeded but the requested packages are not %s" % r["tasks"][0]["state"],
                               dict(desc, observed=dict(db_after=after)))
-        if (it["status"] == "changed") != (after != before):
+        if after is not None and (it["status"] == "changed") != (pkgstate(after) != pkgstate(before)):
             if kd:
                 run.known("K19-sync-dependency", "")
             else:
-                run.violation("changed-iff: pacman task reported %s but the package state %s" % (it["status"], "changed" if after != before else "did not change"),
+                run.violation("changed-iff: pacman task reported %s but the package state %s" % (it["status"], "changed" if pkgstate(after) != pkgstate(before) else "did not change"),
                               dict(desc, observed=dict(db_after=after, status=it["status"])))
     report_mismatches(run, mism, "C04 mirror vs implementation")
     cov(run, len(res) + len(pres), len(nontrivial),
@@ -392,7 +425,7 @@ def c05(run, replay=None):
                     break
     allp = [(db, [p, p], "none") for db in pacman_dbs() for p in pacman_params(tier)]
     if tier == "quick":
-        allp = sample(run, allp, 1000)
+        allp = psample(run, allp, 1000)
     pres = run_pacman_cases(allp)
     for r in pres:
         d = pacman_compare(r)
@@ -466,8 +499,7 @@ def c06(run, replay=None):
             allp.append((db, [p], "task"))
             allp.append((db, [p], "none"))
     if tier == "quick":
-        idx = sample(run, list(range(0, len(allp), 2)), 700)
-        allp = [allp[j + k] for j in idx for k in (0, 1)]
+        allp = psample(run, allp, 1400, group=2)
     pres = run_pacman_cases(allp)
     for i in range(0, len(pres), 2):
         rc, rr = pres[i], pres[i + 1]
@@ -483,6 +515,9 @@ def c06(run, replay=None):
             if b["status"] == "changed":
                 nontrivial.add(json.dumps(desc, sort_keys=True))
             if (a["status"], a["installed"], a["removed"], a["upgraded"]) != (b["status"], b["installed"], b["removed"], b["upgraded"]):
+                if known_check_skips_refresh(rc["tasks"][0], rc["db"]) and (a["installed"], a["removed"]) == (b["installed"], b["removed"]) and not a["upgraded"] == b["upgraded"]:
+                    run.known("K24-check-skips-refresh", "")
+                    continue
                 run.violation("predict: pacman check mode reported %r, the real run %r" % ((a["status"], a["installed"], a["removed"], a["upgraded"]),
                                                                                            (b["status"], b["installed"], b["removed"], b["upgraded"])),
                               dict(desc, observed=dict(check=a, real=b)))
